@@ -29,6 +29,8 @@ CHECKS = {
  "C02": sq("4/C02", "exploration", ENUM, "Every string of <= 4 (thorough 5) tokens over {LF, CR, a, colon, space, field look-alikes, BOM, NUL} in every role (data, comment, ID, type), every program of <= 3 (4) AppendData/AppendComment calls on a representative set, ID x Type x Retry crossed, and every ordered pair (triple) of representative messages concatenated: the wire text is decoded by a strict WHATWG reference and by sse.Read and must equal the expectation computed from the API calls with an independent line splitter; clones continued separately must not leak."),
  "C14": sq("4/C14", "exploration", ENUM, "Every string of <= 4 (5) tokens over {LF, CR, a, colon, space, NUL, 'data: x'} through every construction route (NewID/NewType, ID/Type, UnmarshalText incl. later reuse of the caller's buffer, UnmarshalJSON with both escape styles, Scan as string and []byte, the Last-Event-Id header given to Upgrade), non-string JSON documents / driver values, and every wire text of <= 5 (6) tokens through Message.UnmarshalText: IsSet implies no CR/LF, an input with CR/LF leaves the value unset (with an error where the route has one), and a message carrying the value decodes to exactly one event with no injected field."),
  "C15": sq("4/C15", "fault_enumeration", "fault enumeration: every Write call of the encoding x every short-write length, on the real WriteTo; plus bounded-exhaustive round-trip enumeration", "For every enumerated message (payload strings of <= 3 (4) tokens as data/comment; ID x type x retry x chunk shapes): UnmarshalText(MarshalText(m)) is compared field by field and by re-encoding, WriteTo/MarshalText/String byte-identical; and for EVERY Write call k of the encoding and EVERY j in [0, len] a writer accepting j bytes of the k-th write then failing: WriteTo must return that error, exactly the accepted byte count, a prefix of the encoding, and stop writing."),
+ "C16": sq("4/C16", "fault_enumeration", "fault enumeration over the call log of a recording ResponseWriter: every Send/Flush sequence x writer shape x failure at every individual underlying Write (every short count) or flush", "Every sequence of <= 4 (5) Session operations {Send data message, Send id-only message, Send empty message, Flush} x 8 ResponseWriter shapes x a fault at EVERY underlying call (a failing Write with every short count, a failing FlushError), judged on the ordered call log: header set and flushed before the first body byte and never set again, body = concatenation of the encodings, Flush flushes, the writer's first error is what the caller gets. ServeHTTP x shapes x 7 Last-Event-Id header values x 8 OnSession behaviours x 4 provider behaviours."),
+ "C20": sq("4/C20", "exploration", ENUM, "Limits 8/16/33/64 (thorough also 100/257), the default 64 KiB and an enlarged limit, through ReadConfig.MaxEventSize and both forms of Connection.Buffer; stream shapes (endless line / event / blank lines / comments, an event of size n at the start / middle / end, with CRLF, after b blank lines) with n swept over [M-4, M+4] and around 4096/65536; chunkings whole, 1, 3 bytes and a cut at M-1/M/M+1; a counting reader bounds what is pulled before the error, every delivered event must be byte-identical to the reference's."),
  "C19": sq("4/C19", "model_checking", "exhaustive enumeration of all operation sequences up to a depth on real Messages against a value model; repeated-Put histories on both replayers", "All sequences of <= 7 (8) operations {AppendData, AppendComment, set ID, Clone} x target over a family of up to three messages (clones of clones), each step compared with a value model built from copied slices; one message put 1..6 times through both replayers in both ID modes (incl. ring wrap-around): caller's message unchanged, copies independent, IDs consecutive and stable."),
  "C08": sq("4/C08", "model_checking", BFS, "All histories of valid/invalid Puts up to 4N+2 (thorough 6N+3) operations for capacities 2..4 (thorough ..5), both ID modes: the reachable concrete states of the ring buffer are enumerated completely (the state space closes: the frontier empties), and in each of them every Replay probe (every issued ID, never-issued, next-to-be-issued, unset x 4 topic sets x failing Send position) is compared with a list of the last N accepted events."),
  "C09": sq("4/C09", "model_checking", BFS, "All histories over {Put a, Put b, invalid Put, GC, advance 1 tick, advance TTL, 5 Puts, 9 Puts} up to depth 7 (thorough 10) with bounded clock advances and macro operations, TTL 2/3 ticks x 5 GCInterval settings x both ID modes, so the buffer grows 4-8-16-32, wraps and shrinks again; in every reachable state every probe is compared with a list model with per-entry expiry and every unexpired event must still be held."),
